@@ -33,6 +33,13 @@
 (*              has although m2's item is WIDER than m1's: the upper bytes  *)
 (*              m2 wrote are lost (merge of (p)<-x[0:16] with (p)<-y).      *)
 (*              Repaired: the first loop joins at the wider of the two.     *)
+(*   StaleItems  merge() joins the RECORDED value of an item, not what the  *)
+(*              location holds at the end of its map, and creates m1's keys *)
+(*              first: when a later item of m2 overlaps an earlier one and  *)
+(*              m1 has the later key, the stale bytes of the earlier item   *)
+(*              are written last ((p)<-a in m1; (p+1)<-b, (p)<-c16 in m2:   *)
+(*              byte p+1 of the merge lacks c[8:16]). Repaired: both sides  *)
+(*              are read.                                                   *)
 (*   TopReadAsBottom  _Mem_read (mapper.py:220) takes an UNKNOWN part of a  *)
 (*              zone object (top, vecw: not _is_def) for an unwritten one   *)
 (*              and returns the initial memory instead: a byte merged to    *)
@@ -116,7 +123,7 @@ Loop(mm, items, own, other, first, wd, fire) ==
             ELSE LET j  == MIdx(other, it.off)
                      n  == IF "SkipWiderSecond" \notin Q /\ first /\ j > 0 /\ Len(other.items[j].val) > Len(it.val)
                            THEN Len(other.items[j].val) ELSE Len(it.val)        \* repaired: join at the wider size
-                     v1 == IF n = Len(it.val) THEN it.val ELSE GetMem(own, it.off, n)
+                     v1 == IF n = Len(it.val) /\ "StaleItems" \in Q THEN it.val ELSE GetMem(own, it.off, n)
                      v2 == GetMem(other, it.off, n)
                  IN Loop(SetMem(mm, it.off, Join(v1, v2, wd, fire)), Tail(items), own, other, first, wd, fire)
 MergeImpl(m1, m2, wd, fire) ==
